@@ -556,4 +556,72 @@ func TestC04Bytes(t *testing.T) {
 	}
 }
 
-func init() { reg("C04.text", checkC04) }
+// ---- the exception: whitespace next to a dashed delimiter ------------------------------------------
+
+type C04DashCase struct {
+	Lead  BStr `json:"lead"`
+	Core  BStr `json:"core"`
+	Trail BStr `json:"trail"`
+	Form  int  `json:"form"`
+	Big   bool `json:"big,omitempty"`
+}
+
+// checkC04Dash: a dash removes the whitespace between its delimiter and the nearest non-blank byte
+// of the adjacent text and nothing else: the other end of that text, and its interior, stay.
+func checkC04Dash(c C04DashCase) error {
+	const ws = " \t\r\n"
+	t := string(c.Lead) + string(c.Core) + string(c.Trail)
+	var src, want string
+	switch c.Form {
+	case 0:
+		src, want = "{{ p0 }}"+t+"{{- p0 }}Z", "<P>"+strings.TrimRight(t, ws)+"<P>Z"
+	case 1:
+		src, want = "A{{ p0 -}}"+t+"{{ p0 }}", "A<P>"+strings.TrimLeft(t, ws)+"<P>"
+	case 2:
+		src, want = "A{% if true -%}"+t+"{%- endif %}Z", "A"+strings.Trim(t, ws)+"Z"
+	case 3:
+		src, want = "{{ p0 }}"+t+"{%- if true %}"+t+"{% endif -%}"+t+"{{ p0 }}", "<P>"+strings.TrimRight(t, ws)+t+strings.TrimLeft(t, ws)+"<P>"
+	default:
+		src, want = t+"{{- p0 -}}"+t, strings.TrimRight(t, ws)+"<P>"+strings.TrimLeft(t, ws)
+	}
+	if c.Big {
+		pad := strings.Repeat("0123456789abcdef", 260)
+		src, want = src+pad, want+pad
+	}
+	r := render(newEngine(map[string]string{"main": src}), "main", map[string]interface{}{"p0": "<P>"})
+	if r.Failed() {
+		return fmt.Errorf("render failed: %v; source %s", r, q(trunc(src)))
+	}
+	if r.Out != want {
+		return fmt.Errorf("a dash removed something other than the whitespace next to its delimiter: got %s, want %s; source %s", q(trunc(r.Out)), q(trunc(want)), q(trunc(src)))
+	}
+	return nil
+}
+
+func TestC04Dashes(t *testing.T) {
+	r := NewRec(t, "C04", "exhaustive: text = lead + core + trail with lead, trail out of 7 runs of blanks (none, space, tab, LF, CRLF, mixed, lone CR) and 8 cores with non-blank ends (ASCII, inner blanks, multi-byte, invalid UTF-8, NBSP at either end, empty), placed next to dashed print and block delimiters in 5 arrangements, short and padded beyond 4096 bytes; expectation: exactly the blanks between the dash and the nearest other byte are gone; non-trivial = the text has blanks at the end the dash does not face")
+	defer r.Flush()
+	r.SetExhaustive()
+	blanks := []string{"", " ", "\t", "\n", "\r\n", " \n\t ", "\r"}
+	cores := []string{"x", "a b", "a \n b", "\u00e9t\u00e9", "\xffq\xfe", "x\u00a0", "\u00a0x", ""}
+	for _, lead := range blanks {
+		for _, core := range cores {
+			for _, trail := range blanks {
+				for form := 0; form < 5; form++ {
+					for _, big := range []bool{false, true} {
+						c := C04DashCase{Lead: BStr(lead), Core: BStr(core), Trail: BStr(trail), Form: form, Big: big}
+						r.Case(fmt.Sprint(q(lead), q(core), q(trail), form, big), lead != "" || trail != "", c, fmt.Sprintf("form:%d", form))
+						if err := checkC04Dash(c); err != nil {
+							r.FailEnumKey(t, "C04.dash", fmt.Sprint(form, big), c, err)
+						}
+					}
+				}
+			}
+		}
+	}
+}
+
+func init() {
+	reg("C04.text", checkC04)
+	reg("C04.dash", checkC04Dash)
+}
